@@ -1,4 +1,5 @@
 """C12 - every documented math function is accepted and computes its namesake."""
+import os
 import re
 import sys
 
@@ -9,7 +10,7 @@ from .tvcheck import ENGINE_A_ASSUMPTIONS, TVCheck, cleanup_scratch
 
 
 def readme_functions():
-    txt = open("/repo/README.md").read()
+    txt = open(os.path.join(os.environ.get("VERIF_REPO", "/repo"), "README.md")).read()
     m = re.search(r"Math functions are pulled from.*?:\s*(.*?)\.\n", txt, re.S)
     return re.findall(r"`(\w+)`", m.group(1)) if m else []
 
